@@ -69,6 +69,7 @@ pub fn profile_c27() -> Profile {
 
 pub fn profile_c25() -> Profile {
     Profile {
+        text_conflict_prologue_permille: 120,
         replicas: (2, 4),
         events: (15, 140),
         w_merge: 5,
@@ -92,6 +93,7 @@ pub fn profile_c25() -> Profile {
 
 pub fn profile_c26() -> Profile {
     Profile {
+        text_conflict_prologue_permille: 120,
         replicas: (2, 4),
         events: (15, 140),
         w_merge: 5,
